@@ -7,6 +7,9 @@ DRIVER = 'driver_s2foot'
 
 def real_line(doc):
     import traceback
+    if 'ops' in doc:        # a sequence of calls of the footnote methods of LayoutContext (harness/pm_foot_ops.py)
+        from harness import pm_foot_ops
+        return pm_foot_ops.real_line(doc['ops'])
     try:
         with docs.time_limit(20):
             return pm_foot.run_real(doc)
@@ -22,6 +25,9 @@ def real_line(doc):
 
 def model_line(doc, driver=DRIVER):
     from vlib import lean
+    if 'ops' in doc:
+        from harness import pm_foot_ops
+        return lean.run_driver(driver, [pm_foot_ops.case_line(doc['ops'])])[0]
     return lean.run_driver(driver, [pm_foot.doc_line(doc)])[0]
 
 
@@ -86,6 +92,14 @@ def add_cases(run, sec, count, gen=None, skip_errors=True):
             meta['name'] = name
         sec.add(pm_foot.doc_line(doc), out, meta=meta,
                 nontrivial=pages >= 2 and pm_foot.n_footnotes(doc) > 0, tags=tags)
+    # function level: sequences of layout_footnote / report_footnote / unlayout_footnote calls on a real LayoutContext,
+    # in orders that documents do not produce (model: applyOps of Model/PaginateFootOps.lean)
+    from harness import pm_foot_ops
+    for _ in range(run.n(25, 400)):
+        case = pm_foot_ops.gen_case(run.rng)
+        out = pm_foot_ops.real_line(case)
+        sec.add(pm_foot_ops.case_line(case), out, meta={'doc': {'ops': pm_corr.doc_json(case)}},
+                nontrivial=out.count('(s ') >= 3, tags=['context-method-calls'] + (['calls-stop'] if '(stop)' in out else []))
 
 
 doc_json = pm_corr.doc_json
@@ -93,6 +107,11 @@ doc_json = pm_corr.doc_json
 
 def doc_from_json(data):
     from fractions import Fraction
+    if 'ops' in data:
+        case = pm_corr.doc_from_json(data['ops'])
+        case['fns'] = [dict(f, h=Fraction(f['h'])) for f in case['fns']]
+        case['area'] = {k: (v if v == 'inf' else Fraction(v)) for k, v in case['area'].items()}
+        return {'ops': case}
     doc = pm_corr.doc_from_json(data)
 
     def conv(x):
@@ -141,6 +160,10 @@ def expected_calls(box, out):
 def conservation_violation(doc, impl_out):
     """C01 on the extended grammar: every line exactly once and in order (as stage 1), and every footnote body
     whose call line is rendered exactly once, on the page of its call or on a later one, bodies in call order."""
+    if 'ops' in doc:
+        from harness import pm_foot_ops
+        return pm_foot_ops.trace_violation(doc['ops'], impl_out)
+
     if impl_out.startswith('err:'):
         return f'pagination raised {impl_out}'
     pages, _left = parse(impl_out)
@@ -185,6 +208,10 @@ def conservation_violation(doc, impl_out):
 def progress_violation(doc, impl_out):
     """C03 on the extended grammar: every non-blank page shows something new (a line, a box or a footnote body);
     a blank page is followed by a non-blank one unless it carries postponed footnotes; bounded page count."""
+    if 'ops' in doc:
+        from harness import pm_foot_ops
+        return pm_foot_ops.trace_violation(doc['ops'], impl_out)
+
     if impl_out.startswith('err:'):
         return f'pagination raised {impl_out}'
     pages, _left = parse(impl_out)
@@ -308,6 +335,10 @@ def overlap_violation(doc, impl_out):
     Documents with fixed / maximal heights (content overflows its box by design) are not judged.  Every `@footnote`
     style is judged, negative margins included (the excuses for the findings footnote-area-negative-margin-overflow
     and -box went with the repairs 84e5b27 and 2efefde: `page_bottom` never exceeds the page box nor the area top)."""
+    if 'ops' in doc:
+        from harness import pm_foot_ops
+        return None
+
     if impl_out.startswith('err:'):
         return None
     if unjudged_geometry(doc):
